@@ -41,6 +41,13 @@ Theorem C03_no_split : forall ctmo parts0 es tx sh sh',
   In (tx, sh) (applied g) -> In (tx, sh') (discarded g) -> False.
 Proof. exact no_split. Qed.
 
+(* "a transaction's writes are applied at most once on each shard": however Prepare / Commit messages are
+   duplicated, delayed or reordered, no (transaction, shard) pair is applied twice (the participant remembers the
+   transactions it has decided and refuses to prepare them again). *)
+Theorem C03_applied_at_most_once : forall ctmo parts0 es,
+  NoDup (applied (grun (start ctmo parts0) es)).
+Proof. exact applied_once. Qed.
+
 (* "aborted and timed-out transactions leave every shard's data exactly as it was" -- outside the known class:
    in every reachable state, aborting tx at a shard where no OTHER transaction committed a write to one of tx's
    keys since tx's prepare (tx is not `dirty`) leaves every key of that shard's store unchanged. *)
@@ -89,5 +96,6 @@ Print Assumptions C03_one_decision.
 Print Assumptions C03_commit_only_if_all_yes.
 Print Assumptions C03_apply_only_after_commit.
 Print Assumptions C03_no_split.
+Print Assumptions C03_applied_at_most_once.
 Print Assumptions C03_abort_leaves_data.
 Print Assumptions C03_abort_leaves_data_refuted.
